@@ -644,6 +644,20 @@ func (e *SpecEnv) call(n *ast.CallExpr) (SV, error) {
 			}
 		}
 	}
+	// (*pkg.T)(x): the same view for a type of an imported package
+	if pe, ok := n.Fun.(*ast.ParenExpr); ok && len(n.Args) == 1 {
+		if st, ok := pe.X.(*ast.StarExpr); ok {
+			if sel, ok := st.X.(*ast.SelectorExpr); ok {
+				if t, err := e.resolveType(sel); err == nil {
+					v, err := e.eval(n.Args[0])
+					if err != nil {
+						return SV{}, err
+					}
+					return SV{v.T, types.NewPointer(t)}, nil
+				}
+			}
+		}
+	}
 	if id, ok := n.Fun.(*ast.Ident); ok {
 		switch id.Name {
 		case "old":
